@@ -240,6 +240,17 @@ Definition step_op (rs : regs) (op : list Z) : regs * list Z :=
       (* render rows as text: kind 0 snapshot rows (u v t)*, kind 1 interaction rows (u v op t)* *)
       (rs, if kind =? 0 then flat_map (fun x => let ln := render_snap_row d x in Z.of_nat (length ln) :: ln) (triples_of l)
            else flat_map (fun x => let ln := render_int_row d x in Z.of_nat (length ln) :: ln) (dec_irows l))
+  | 80 :: src :: dst :: _ =>
+      let g := getr rs src in
+      (match parse_snapshots (g_dir g) (map (fun x => (fst (fst x), snd (fst x), snd x, None)) (gen_snapshots g)) with
+       | RdOk h => (setr rs dst h, [0]) | RdErr o => (rs, [out_code o]) end)
+  | 81 :: src :: dst :: _ =>
+      let g := getr rs src in
+      (match parse_interactions (g_dir g) (gen_interactions g) with
+       | RdOk h => (setr rs dst h, [0]) | RdErr o => (rs, [out_code o]) end)
+  | 82 :: src :: dst :: dirarg :: _ =>
+      (match node_link_graph (node_link_data (getr rs src)) (bz dirarg) with
+       | RdOk h => (setr rs dst h, [0]) | RdErr o => (rs, [out_code o]) end)
   | 78 :: r :: d :: _ =>
       (rs, flat_map (fun x => let ln := render_snap_row d x in Z.of_nat (length ln) :: ln) (gen_snapshots (getr rs r)))
   | 79 :: r :: d :: _ =>
